@@ -24,16 +24,16 @@ CHECKS = {
    text='Each seeded case runs as several configuration pairs that must agree bit-for-bit on port-level results: memory reuse (with dead storage poisoned at level boundaries and several batches on one object), fork stripping, CPU vs mock-GPU path under seeded thread orders and the repository launcher (assign/eval/capture/state-transfer kernels, abuf), lane count and lane position, propagation restricted to k lanes (with a lane-isolation monitor), delay-dataset selection modes (global, per simulation, random with per-simulation seeds that travel with the stimulus), a pickle round trip of the simulator object between batches, repeated propagation without re-assignment, capture times passed as float32 / float64 / Python numbers (also float64 values that round to a transition time); LogicSim likewise (options, lane count and position up to 300 lanes, a lane simulated alone or with perturbed neighbours). One genuine defect (F4) is recorded as a known finding.',
    ref='5.3', note='Exact 0/1 stimuli; sd=0; pure-Python fallback; the purely configurational pairs (dataset selection, lane position on LogicSim) contain no schedule or fault and are counted as fault-free differential.'),
  'C16': dict(technique='deterministic simulation: fault injection through the code\'s own inject_cb seam, event-history checks and refinement against a cut-circuit reference',
-   text='The harness callback is monitor and fault injector: seeded fault plans overwrite signals in chosen lanes and cycles (c_prop and cycle(k)); the recorded event history is checked for exactly-once, dependency order, identity and view semantics, and per cycle and lane group the results and every value any callback saw must equal the callback-free simulation of the cut circuit in which each injected line is a fresh primary input. Untouched callbacks must leave s[1] and c bit-identical in all three logics, whatever the callable is (function, partial, method, falsy object) and whatever it returns; a callback-free propagation on the same object afterwards - with or without a new assignment - must give the fault-free results again.',
+   text='The harness callback is monitor and fault injector: seeded fault plans overwrite signals in chosen lanes and cycles (c_prop and cycle(k)); the recorded event history is checked for exactly-once, dependency order, identity and view semantics, and per cycle and lane group the results and every value any callback saw must equal the callback-free simulation of the cut circuit in which each injected line is a fresh primary input. Untouched callbacks must leave s[1] and c bit-identical in all three logics, whatever the callable is (function, partial, method, falsy object) and whatever it returns; lane counts range from 1 to 40 000 (more than 4096 bytes per signal); a callback-free propagation on the same object afterwards - with or without a new assignment - must give the fault-free results again.',
    ref='5.6', note='Oracle is the same simulator class without callback on a rebuilt cut circuit (no second multi-valued algebra); lanes are grouped by injection set; pure-Python fallback.'),
  'C09': dict(technique='deterministic simulation: stateful exploration of edit histories against a reference graph model, with restore (pickle/copy) faults in mid-history',
-   text='Seeded histories of 1-150 public edit operations (nodes, lines with implicit/explicit pins, removals, get_or_add_fork, port list edits, eliminate_1to1_forks, substitute with generated implementations, copy, pickle round trip after which the history continues on the restored object). Removals are repeated on stale handles, cells and forks may share a name, node kinds and names are exotic, a fork may have hundreds of branches. After every step all clauses of the statement are evaluated on the real object (indices, name lookups, exact pin back-references by scanning all pin lists, gap-free fork outputs, statistics) and the graph must be isomorphic to the dict-based reference model.',
+   text='Seeded histories of 1-150 public edit operations (nodes, lines with implicit/explicit pins, removals, get_or_add_fork, port list edits, eliminate_1to1_forks, substitute with generated implementations, copy, pickle round trip after which the history continues on the restored object). Removals are repeated on stale handles, cells and forks may share a name, node kinds and names are exotic, a fork may have hundreds of branches, a graph hundreds of unconnected nodes and few lines. After every step all clauses of the statement are evaluated on the real object (indices, name lookups, exact pin back-references by scanning all pin lists, gap-free fork outputs, statistics) and the graph must be isomorphic to the dict-based reference model.',
    ref='5.7', note='Well-formed use only (acyclic, one driver per fork, explicit pins on free positions); substitute re-synchronises the model after the invariants passed; trailing None pin slots are not compared.'),
  'C10': dict(technique='deterministic simulation: seeded transformation histories with restore (pickle/copy) steps, checked after every step against a hierarchical reference evaluator',
-   text='No schedule exists here; what is explored is the history: a seeded netlist with instances of every cell of every built-in library (random pin subsets connected) goes through 1-8 transformation steps (copy, pickle round trip, eliminate_1to1_forks, substitute with generated and nested implementations, resolve_tlib_cells); after every step the list of ports/state elements and the exhaustive 2-valued table at their data pins (independent evaluator: hierarchical through implementation circuits before resolving, flat afterwards) must be unchanged; no library cell may remain after resolving, the libraries must still offer every cell name of the pinned tree, and the shared implementation circuits must stay unmodified; after resolving and at the end of a history the same table is also taken through the LogicSim of the library itself on the transformed circuit (the function as a user observes it). Two genuine defects (latch cells without latch in their name; state-element order after node removal) are recorded known findings.',
+   text='No schedule exists here; what is explored is the history: a seeded netlist with instances of every cell of every built-in library (random pin subsets connected), optionally hundreds of unconnected spare cells, instances that use a later implementation output and leave earlier ones open, goes through 1-8 transformation steps (copy, pickle round trip, eliminate_1to1_forks, substitute with generated and nested implementations, resolve_tlib_cells); after every step the list of ports/state elements and the exhaustive 2-valued table at their data pins (independent evaluator: hierarchical through implementation circuits before resolving, flat afterwards) must be unchanged; no library cell may remain after resolving, the libraries must still offer every cell name of the pinned tree, and the shared implementation circuits must stay unmodified; after resolving and at the end of a history the same table is also taken through the LogicSim of the library itself on the transformed circuit (the function as a user observes it). Two genuine defects (latch cells without latch in their name; state-element order after node removal) are recorded known findings.',
    ref='5.8', note='Unconnected instance inputs only where the function is unambiguous; one library per case; RefEval written from gate names; exhaustive up to 10 variables, else 1024 fixed rows.'),
  'C13': dict(technique='deterministic simulation: capacity faults paired with unlimited runs, accumulation under seeded GPU thread orders and real-thread interleavings, capture read-out of recorded state',
-   text='Overflow indicator: capacity-faulted run vs paired capacity-64 run, every output whose indicator is clear must carry exactly the unlimited waveform. Accumulation: abuf must equal the weighted rise/fall count of the waveform snapshots taken when each op finishes, cumulatively over reuse batches, on the CPU path, under seeded mock-GPU thread orders, under fine-grained interleaving (where a non-atomic update loses counts) and for the first k lanes. Capture summary: s[3..8], s[10] against what the stored output waveform encodes for capture times selected on/around actual transitions.',
+   text='Overflow indicator: capacity-faulted run vs paired capacity-64 run, every output whose indicator is clear must carry exactly the unlimited waveform. Accumulation: abuf must equal the weighted rise/fall count of the waveform snapshots taken when each op finishes, cumulatively over reuse batches, on the CPU path, under seeded mock-GPU thread orders, under fine-grained interleaving (where a non-atomic update loses counts) and for the first k lanes. Capture summary: s[3..8], s[10] against what the stored output waveform encodes for capture times selected on/around actual transitions, on every lane - also after a propagation restricted to the first k lanes, where the lanes beyond k keep the waveforms of an earlier full propagation.',
    ref='5.5', note='sd=0; "unlimited" = 64 entries (cases where that overflows are skipped and counted); pure-Python fallback.'),
  'C07': dict(technique='deterministic simulation: seeded GPU-thread scheduler (order + interleave) with race/ownership monitors',
    text='Seeded exploration of schedules: every generated circuit/option combination is executed under permuted intra-level op orders (CPU), seeded thread orders of the mock-GPU grid, the repository launcher and real-thread interleavings; a run-time race monitor (M1), shadow-ownership monitor (M2) and lane monitor (M3) judge every access, and signal memory and results must be bit-identical to the canonical order. Sampling, not proof: evidence within the stated bounds (<=40 gates normally, 50-80 in the rare deep / wide shapes, the shipped b01 netlist; <=6 lanes, 33 in the lane rows).',
